@@ -10,12 +10,12 @@ RULE = ("every inductive estimator (all but the nonparametric ones, Kauri includ
         "arrays of fresh points and training points; predict / predict_proba on the whole array vs row subsets of sizes "
         "1..m, permutations, single rows, duplicated rows (1e-9 on probabilities, labels where the top-two margin exceeds "
         "1e-9, Kauri exactly); predict(X_train) == labels_; training-set probabilities == the probabilities computed by "
-        "the last forward pass of fit (captured by an _infer hook). One evaluation = one (fit, query transformation). "
+        "the last forward pass of fit (captured by an _infer hook); plus large query arrays of 2^k-1 / 2^k / 2^k+1 rows (k 8..17, Douglas with up to 2^10 leaves) whose first, last, block-boundary and random rows are compared with the row predicted alone. One evaluation = one (fit, query transformation). "
         "Non-trivial = subset of >= 1 rows of an array with >= 2 rows; distinct by (estimator, parameters, index set).")
 ASSUMPTIONS = ["BLAS blocking may change the last bits of a product: probabilities are compared to 1e-9 absolute"]
 EVAL_COUNTER = "comparisons"
 REQUIRED = {"quick": dict({"comparisons": 2500, "single_row_comparisons": 600, "fit_final_forward_compared": 300,
-                           "train_predict_equals_labels": 350},
+                           "train_predict_equals_labels": 350, "big_batches": 45, "big_rows_compared": 1200},
                           **{"fit:" + e: 15 for e in gen.ESTIMATORS if e not in gen.NONPARAMETRIC}),
             "thorough": {"comparisons": 40000}}
 SHARD_TIMEOUT = {"quick": 1200, "thorough": 7000}
@@ -24,7 +24,8 @@ INDUCTIVE = [e for e in gen.ESTIMATORS if e not in gen.NONPARAMETRIC]
 
 def cases(tier, seed):
     n = 640 if tier == "quick" else 9000
-    return [{"kind": "fit", "seed": seed, "i": i} for i in range(n)]
+    nb = 64 if tier == "quick" else 900
+    return [{"kind": "fit", "seed": seed, "i": i} for i in range(n)] + [{"kind": "big", "seed": seed, "i": i} for i in range(nb)]
 
 
 class State:
@@ -66,7 +67,69 @@ def reach_targets(reach):
     reach.add_class(Tree, {"predict"})
 
 
+def run_big(case, ctx, st):
+    """Large query arrays (2^k - 1, 2^k, 2^k + 1 rows, k = 8..17): an implementation that evaluates long inputs block by
+    block must give every row - the first and the last of each block included - what it gets when predicted alone.
+    Douglas is given many leaves here (up to 2^10), so that any leaf-count-dependent blocking has small blocks."""
+    i = case["i"]
+    rng = gen.rng_for(case["seed"], ID, "big", i)
+    pool = INDUCTIVE + ["Douglas"] * 6
+    name = pool[i % len(pool)]
+    n = int(rng.integers(6, 16))
+    d = int(rng.integers(1, 5))
+    params, _ = gen.random_config(rng, name, n, d, max_iter=int(rng.integers(1, 3)), allow_precomputed=False)
+    if name == "Douglas":
+        d = int(rng.integers(3, 11))
+        params.pop("feature_mask", None)
+        params["n_cuts"] = 1 if d > 6 else int(rng.integers(1, 3))
+        params["gemini"] = "mmd_ova"
+    X = gen.make_data(rng, n, d, "blobs")
+    k = int(rng.integers(8, 18 if name not in ("KernelRIM",) else 15))
+    m = 2 ** k + int(rng.integers(-1, 2))
+    if name == "Douglas":
+        leaves = (params["n_cuts"] + 1) ** d
+        m = min(m, max(257, (2 ** 24) // leaves + 1))      # keep the membership matrix below ~128 MB
+    ctx.case = dict(case, estimator=name, params=params, n=n, d=d, rows=m)
+    est = gen.build_estimator(name, params)
+    try:
+        est.fit(X)
+    except Exception as e:
+        ctx.count("fit_raised:" + type(e).__name__)
+        return
+    Q = gen.make_data(rng, m, d, "blobs") * float(rng.uniform(0.5, 2.0))
+    is_kauri = name == "Kauri"
+    try:
+        full_l = np.asarray(est.predict(Q))
+        full_p = None if is_kauri else np.array(est.predict_proba(Q), copy=True)
+        if full_p is not None and not np.all(np.isfinite(full_p)):
+            ctx.count("big_nonfinite_skipped")
+            return
+        picks = [0, 1, m - 2, m - 1] + [int(x) for x in rng.integers(0, m, size=12)]
+        picks += [2 ** j + o for j in range(8, 18) for o in (-1, 0) if 0 <= 2 ** j + o < m][:12]
+        ctx.count("big_batches")
+        ctx.count("big_rows_compared", len(picks))
+        for r in picks:
+            one = Q[r:r + 1]
+            ctx.count("comparisons")
+            if is_kauri:
+                ok = np.array_equal(np.asarray(est.predict(one)), full_l[r:r + 1])
+                diff = None
+            else:
+                sp = np.asarray(est.predict_proba(one))
+                diff = float(np.max(np.abs(sp - full_p[r:r + 1]))) if sp.shape == (1, full_p.shape[1]) else float("inf")
+                ok = diff <= 1e-9
+            if not ok:
+                ctx.violation("per-sample", f"row-of-a-large-batch-differs-from-the-row-alone/{name}",
+                              observed={"rows": m, "row": r, "max_abs_diff": diff, "params": params, "d": d}, expected="<= 1e-9")
+                break
+        ctx.distinct(name, str(params), m)
+    except Exception as e:
+        ctx.violation("per-sample", f"prediction-raises/{name}/{type(e).__name__}", observed={"exc": repr(e)[:300], "rows": m}, expected="predictions")
+
+
 def run_case(case, ctx, st):
+    if case.get("kind") == "big":
+        return run_big(case, ctx, st)
     i = case["i"]
     rng = gen.rng_for(case["seed"], ID, "fit", i)
     name = INDUCTIVE[i % len(INDUCTIVE)]
